@@ -59,6 +59,12 @@ func tableScenario(nn, table, script int) *scen.Scenario {
 	}
 	sc.Nodes = append(sc.Nodes, scen.NodeSpec{Kind: scen.KFlow, N: 1, Flow: fs})
 	sc.Root = nn
+	if table%5 == 0 { // struct nodes share one embedded *BaseNode (same configuration, different nodes)
+		sc.ShareBase = true
+		for n := 0; n < nn; n++ {
+			sc.Nodes[n].Kind = n % 2 // base / baseFB
+		}
+	}
 	return sc
 }
 
@@ -117,6 +123,31 @@ func runC03(c *Cfg) {
 	} else {
 		r.Note("1- and 2-node table spaces complete; 3-node space sampled with stride 13 (thorough tier enumerates it completely)")
 	}
+	// 1b. long cycles: a self-loop and a two-node cycle that go round thousands of times before they exit
+	loops := []int{1500, 9999, 10001, 12000}
+	if c.Thorough() {
+		loops = append(loops, 30000, 65537, 200000)
+	}
+	var lc []*scen.Scenario
+	for _, n := range loops {
+		// self-loop: 0 --loop--> 0, 0 --exit--> 1
+		lc = append(lc, &scen.Scenario{Runs: 1, MaxCallbacks: 4*n + 100, Root: 2, Nodes: []scen.NodeSpec{
+			{Kind: (n % scen.NumScriptedKinds), N: 1, LoopN: n},
+			{Kind: scen.KPlain, N: 1, Visits: []scen.Visit{{FirstOK: 1, Post: "fin"}}},
+			{Kind: scen.KFlow, N: 1, Flow: &scen.FlowSpec{Start: 0, Conns: []scen.Conn{{From: 0, Action: "loop", To: 0}, {From: 0, Action: "exit", To: 1}}}}}})
+		// two-node cycle: 0 --loop--> 1 --default--> 0, 0 --exit--> 2
+		lc = append(lc, &scen.Scenario{Runs: 1, MaxCallbacks: 8*n + 100, Root: 3, Nodes: []scen.NodeSpec{
+			{Kind: scen.KBase, N: 1, LoopN: n},
+			{Kind: scen.KFnBldAny, N: 1, Visits: nil, LoopN: 0},
+			{Kind: scen.KPlain, N: 1, Visits: []scen.Visit{{FirstOK: 1, Post: "fin"}}},
+			{Kind: scen.KFlow, N: 1, Flow: &scen.FlowSpec{Start: 0, Conns: []scen.Conn{{From: 0, Action: "loop", To: 1}, {From: 1, Action: scen.EndAction, To: 0}, {From: 0, Action: "exit", To: 2}}}}}})
+	}
+	parallel(c, len(lc), func(i int) {
+		outs, _ := judgeFor(c, "C03", "long-cycle", lc[i])
+		r.Count("long_cycle.runs", 1)
+		r.HighWater("long_cycle.longest_path", int64(len(outs[0].Store)))
+		r.NontrivialH(uint64(9)<<40 | uint64(i))
+	})
 	// 2. random graphs: up to 12 nodes, 5 actions, nesting depth 3, cycles, re-connections, repeated runs
 	nr := c.Pick(30000, 400000)
 	parallel(c, nr, func(i int) {
